@@ -85,6 +85,9 @@ pub struct FilterCollector {
     /// deliveries that this collector's own filter rejects at the time of delivery
     pub bad_deliveries: AtomicU64,
     pub enabled_calls: AtomicU64,
+    /// `event()` panics (payload 4343u32) after recording the event whose `id` field has this
+    /// value (u64::MAX = never)
+    pub panic_on_event: AtomicU64,
 }
 
 struct IdVisit(Option<u64>);
@@ -111,6 +114,7 @@ impl FilterCollector {
             registered: Mutex::new(Vec::new()),
             bad_deliveries: AtomicU64::new(0),
             enabled_calls: AtomicU64::new(0),
+            panic_on_event: AtomicU64::new(u64::MAX),
         }
     }
     pub fn spec(&self) -> Spec {
@@ -200,6 +204,9 @@ impl Collect for FilterCollector {
             level: rank(m.level()),
             target: TARGETS.iter().position(|x| *x == m.target()).unwrap_or(99),
         });
+        if v.0.is_some() && v.0 == Some(self.panic_on_event.load(Ordering::SeqCst)) {
+            std::panic::panic_any(4343u32);
+        }
     }
     fn enter(&self, s: &Id) {
         self.log.lock().unwrap().push(Got::Enter(s.into_u64()));
